@@ -35,13 +35,15 @@ def gen_cases(ctx):
     for ind in KINDS:
         grid = params_grid(ind, [1, 2, 3, 4])
         if ind == "MACD":
-            grid = [(a, b, c, 0.0) for a in (1, 2, 4) for b in (1, 2, 3) for c in (1, 3)]
-        grid = r.sample(grid, min(len(grid), 6 if not ctx.thorough else 18))
+            # every order type of (fast, slow, signal): equal pairs in each position, fast > slow, ...
+            grid = [(a, b, c, 0.0) for a in (1, 2, 3) for b in (1, 2, 3) for c in (1, 2, 3)] + [(9, 26, 9, 0.0), (12, 26, 12, 0.0), (26, 12, 26, 0.0)]
+        else:
+            grid = r.sample(grid, min(len(grid), 6 if not ctx.thorough else 18))
         big = [(r.choice([5, 14, 26, 100, 1024]), r.choice([1, 12, 26]), r.choice([1, 9]), 0.0) for _ in range(2 if not ctx.thorough else 8)]
         for gi, pr in enumerate(grid + big):
             k = nper(ind)
             pr = tuple(pr[i] if i < k else 0 for i in range(3)) + (r.choice([0.0, 0.5, 2.0, -1.0, 1e3]) if ind in HAS_MULT else 0.0,)
-            for rep in range(2 if not ctx.thorough else 4):
+            for rep in range((2 if not ctx.thorough else 4) if ind != "MACD" else 1):
                 n = r.choice([6, 12, 40]) if gi < len(grid) else r.choice([60, 150] if not ctx.thorough else [150, 400])
                 if ind == "CE" or (ind in ("TR", "ATR", "KC") and rep % 2 == 1):
                     bars = tr_bars(r, n) if r.random() < 0.6 else bar_stream(r, n, r.choice(["walk", "grid", "free"]))
